@@ -10,6 +10,10 @@ The specification describes the *repaired* behaviour (Fix* = TRUE); the unrepair
 defects found in the pinned tree are kept in the specification and must violate the properties
 (self-test of the properties, thorough tier).
 
+edge_replay(): the degenerate forms of the same calls on small, completely covered graphs (Publisher_edge.cfg):
+publish(begin,end) with an empty range (a step without any effect: nobody is woken), batches longer than the window
+maximum, min = max, publish on a closed publisher, subscribe at a position not published yet.
+
 conc_replay(): spec/Publisher/PublisherConc.tla wraps the same critical sections into threads (publisher
 thread; one thread per subscriber using blocking next(), next_ready() or a coroutine that the publisher
 resumes on its own thread); its behaviours are replayed by harness/publisher_conc_replay.cpp on real
@@ -72,10 +76,11 @@ def proj(st, woken=None):
 
 
 def consts(nsubs, mn, mx, modes, styles=ALL_STYLES, pub=4, batch=2, join=None, kick=1, at=None, copybusy=False,
-           serial=True, copywoken=False, founders=None):
+           serial=True, copywoken=False, founders=None, minbatch=1, pubclosed=False, ahead=0):
     at = list(range(0, pub + 1)) if at is None else at
     return {"NSubs": nsubs, "MinLen": mn, "MaxLen": mx, "Modes": tla_set(modes), "Styles": styles,
             "MaxPub": pub, "MaxBatch": batch, "MaxJoin": join if join is not None else nsubs + 1, "MaxKick": kick,
+            "MinBatch": minbatch, "PubClosed": "TRUE" if pubclosed else "FALSE", "MaxAhead": ahead,
             "AtPos": "{" + ", ".join(str(x) for x in at) + "}",
             "Serial": "TRUE" if serial else "FALSE", "CopyBusy": "TRUE" if copybusy else "FALSE",
             "CopyWoken": "TRUE" if copywoken else "FALSE",
@@ -89,11 +94,12 @@ def label(c):
                                    "".join(m[0] for m in c["Modes"].strip("{}").replace('"', "").split(", ")))
 
 
-def fast_cover_paths(g, rng, max_paths=None, full=True, max_len=400, want_terminal=True):
+def fast_cover_paths(g, rng, max_paths=None, full=True, max_len=400, want_terminal=True, selfloops=False):
     """Edge cover by root-to-terminal paths in O(total path length): shortest prefix from an initial
     state to a node that still has an uncovered out-edge, then a greedy run over uncovered edges
-    (bounded local search when stuck), then the shortest way to a terminal state."""
-    out = {n: [(l, d) for (l, d) in es if d != n] for n, es in g.edges.items()}
+    (bounded local search when stuck), then the shortest way to a terminal state.
+    selfloops: also the calls that leave the state as it is (an empty batch, a repeated poll) are steps to replay."""
+    out = {n: [(l, d) for (l, d) in es if selfloops or d != n] for n, es in g.edges.items()}
     total = sum(len(v) for v in out.values())
     parent, depth, order = {}, {}, []
     dq = deque()
@@ -116,7 +122,7 @@ def fast_cover_paths(g, rng, max_paths=None, full=True, max_len=400, want_termin
     term_next = {}
     seen = set()
     for n in out:
-        if not out[n]:
+        if all(d == n for (l, d) in out[n]):
             seen.add(n)
             dq.append(n)
     while dq:
@@ -196,12 +202,12 @@ def fast_cover_paths(g, rng, max_paths=None, full=True, max_len=400, want_termin
 
 
 @contextlib.contextmanager
-def fast_cover():
+def fast_cover(selfloops=False):
     """vlib.cover_paths searches the nearest uncovered edge by a BFS per step, which is quadratic on the
     wide and shallow Publisher graphs (13 minutes for 4*10^4 edges); graph_replay looks the function up
     in the vlib module at call time, so it is swapped for the duration of our calls only."""
     old = vlib.cover_paths
-    vlib.cover_paths = fast_cover_paths
+    vlib.cover_paths = (lambda g, rng, **kw: fast_cover_paths(g, rng, selfloops=True, **kw)) if selfloops else fast_cover_paths
     try:
         yield
     finally:
@@ -222,6 +228,66 @@ def replay_config(ctx, rp, c, tag, must=MUST_TAKE, max_paths=None, extra_random=
                             merge_re=r"(Wake|WFetch|WakeCopy)$", must_take=must, constants=c, max_paths=max_paths,
                             extra_random=extra_random, key_fn=key_fn, tlc_kw={"workers": 4},
                             replay_timeout=180 if ctx.quick else 900)
+
+
+EDGE_MUST = ["SubscribeRecent", "SubscribeAt", "Leave", "Ready", "Subscribe", "Fetch", "Poll", "NextWhole", "Wake", "WFetch",
+             "PushCS", "Close"]
+
+
+def edge_replay(ctx, rp):
+    """degenerate forms of publish and subscribe-at (Publisher_edge.cfg): publish(begin,end) with an EMPTY range in every
+    state (a step that must leave everything as it is, in particular every kind of parked subscriber parked), batches up
+    to one more than the window maximum, min = max, publish on a closed publisher, subscribe at a position not published
+    yet (and, as before, not retained any more); the range is handed over as vector / list / pointer pair.  The graphs
+    are small and covered completely, self-loops (calls without effect) included."""
+    if ctx.quick:
+        configs = [("a", consts(1, 2, 2, ["all", "behind"], pub=3, batch=3, join=2, kick=0, at=[0, 2, 3], minbatch=0,
+                               pubclosed=True, ahead=1)),
+                   ("r", consts(1, 1, 1, ["recent"], pub=3, batch=2, join=1, kick=0, at=[0, 2, 3], minbatch=0,
+                               pubclosed=True, ahead=1))]
+    else:
+        configs = [("a", consts(1, 2, 2, ["all", "behind", "recent"], pub=4, batch=3, join=2, kick=1, minbatch=0,
+                               pubclosed=True, ahead=1)),
+                   ("r", consts(1, 1, 1, ["all", "behind", "recent"], pub=3, batch=2, join=2, kick=1, minbatch=0,
+                               pubclosed=True, ahead=1)),
+                   ("u", consts(1, 1, U, ["all", "behind", "recent"], pub=3, batch=3, join=1, kick=0, minbatch=0,
+                               pubclosed=True, ahead=2)),
+                   ("d", consts(2, 1, 2, ["all"], styles='{"split", "coro", "block"}', pub=2, batch=2, join=2, kick=0, at=[0],
+                               minbatch=0, pubclosed=True, ahead=0))]
+    for (name, c) in configs:
+        def hdr(k, st0, c=c):
+            return {"min": c["MinLen"], "max": c["MaxLen"], "wake": "handle" if k % 2 else "fn",
+                    "single": ("rvalue", "lvalue", "range")[k % 3], "block": ("bool", "iter")[(k // 2) % 2],
+                    "batch": ("vector", "list", "array")[(k // 3) % 3]}
+        styles = c["Styles"]
+        must = [m for m in EDGE_MUST if not (m == "Poll" and "poll" not in styles)
+                and not (m in ("NextWhole", "WFetch") and not any(x in styles for x in ("coro", "loop", "block")))]
+        with fast_cover(selfloops=True):
+            res, g = graph_replay(ctx, "Publisher", "Publisher", "Publisher_edge.cfg", "edge_" + name, rp, proj, header_fn=hdr,
+                                  merge_re=r"(Wake|WFetch|WakeCopy)$", must_take=must, constants=c,
+                                  tlc_kw={"workers": 4}, replay_timeout=180 if ctx.quick else 900)
+        if g is None:
+            continue
+        # vacuity guard: the empty batch was a step of its own under every kind of parked subscriber, publish was called on
+        # a closed publisher, somebody joined at a position not published yet
+        seen = set()
+        for n, es in g.edges.items():
+            for (l, d) in es:
+                if l.startswith("PushCS(0)") and d == n:
+                    seen.update("empty:" + x for x in g.state(n)["pc"] if x.startswith("parked"))
+                elif l.startswith("PushCS(") and "closed = TRUE" in g.state_text[n]:
+                    seen.add("closed")
+                elif l.startswith("SubscribeAt(") and int(l.split(",")[1]) >= g.state(n)["pos"]:
+                    seen.add("ahead")
+        want = {"closed", "empty:parked"} | ({"ahead"} if c["MaxAhead"] else set())
+        want |= {"empty:parked_" + x[0] for x in ("coro", "loop", "block") if x in styles}
+        if want - seen:
+            raise MachineryError("edge configuration %s is vacuous: %s not reached" % (name, sorted(want - seen)))
+        res.model["edge_forms"] = sorted(seen)
+    ctx.assume("publish on a closed publisher appends values (nobody can be parked on a closed queue); there a closed stream is "
+               "not polled with next_ready() (a poll swallows the end of stream and leaves the position past the end); a "
+               "subscriber that joined at a position not published yet does not call next() before the stream has reached "
+               "that position, unless the publisher is closed or it was kicked")
 
 
 def expect_violation(ctx, c, tag, what):
@@ -524,6 +590,9 @@ def run(ctx):
         must = must_for(kw["styles"], 1, kw["at"], copy=False) if kw else MUST_TAKE
         replay_config(ctx, rp, c, "solo%d_" % k + label(c), must=must, extra_random=50 if ctx.quick else 100)
     vlib.log("  C16 solo configurations done: %.0fs" % (time.time() - t0))
+    # degenerate forms: empty batch, batch longer than the maximum, min = max, publish on a closed publisher, subscribe ahead
+    edge_replay(ctx, rp)
+    vlib.log("  C16 degenerate publish/subscribe forms done: %.0fs" % (time.time() - t0))
     # two subscribers: slowest-subscriber window, wake order, copy, free list
     for k, (mn, mx, modes, styles, kick, pub, at) in enumerate(duo):
         c = consts(2, mn, mx, modes, styles=styles, pub=pub, batch=2, join=2, kick=kick, at=at)
